@@ -73,6 +73,10 @@ def gen_tree(rng, depth_above=None, small=False):
         t.file(pre + b'secret.txt', marker(pre + b'secret.txt') + b'\n')
         t.file(pre + b'sib%d/secret.html' % i, marker(pre + b'sib/secret.html'))
         if rng.chance(1, 2): t.file(pre + b'index.html', marker(pre + b'index.html'))
+        # every file name the server itself goes looking for (its own pages, the not-found page, its configuration), marked, at
+        # every level above the root: a lookup that walks up, or resolves its own file against the wrong directory, serves one
+        for own in (b'404.html', b'style.css', b'script.js', b'favicon.svg', b'rws.config.toml', b'index.htm'):
+            t.file(pre + own, marker(pre + own) + b' ' + own)
     root = t.cwd + b'/'
     sizes = [0, 1, 2, 3, 10, 100] if small else [0, 1, 2, 5, 10, 255, 256, 1000, 8191, 8192, 8193, 9999, 10000, 10001]
     exts = [b'.txt', b'.html', b'.css', b'.js', b'.json', b'.png', b'.bin', b'', b'.tar.gz', b'.TXT', b'.svg', b'.pdf', b'.unknownext']
